@@ -2702,6 +2702,34 @@ class ProgramNormalizer:
                     stmts.extend(r)
                 else:
                     stmts.append(st)
+            # `if C: __v = True / else: __v = False` followed by `if __v: …` (the result flag of an inlined boolean helper) is `if C: …`
+            folded = []
+            k = 0
+            while k < len(stmts):
+                a = stmts[k]
+                b = stmts[k + 1] if k + 1 < len(stmts) else None
+                if isinstance(a, ast.If) and isinstance(b, ast.If) and len(a.body) == 1 and len(a.orelse) == 1 \
+                        and all(isinstance(x, ast.Assign) and len(x.targets) == 1 and isinstance(x.targets[0], ast.Name) and isinstance(x.value, ast.Constant) and isinstance(x.value.value, bool) for x in (a.body[0], a.orelse[0])) \
+                        and a.body[0].targets[0].id == a.orelse[0].targets[0].id and a.body[0].targets[0].id.startswith(("__val", "__ret")) \
+                        and a.body[0].value.value != a.orelse[0].value.value:
+                    v = a.body[0].targets[0].id
+                    t = b.test
+                    neg = isinstance(t, ast.UnaryOp) and isinstance(t.op, ast.Not)
+                    core = t.operand if neg else t
+                    later = any(isinstance(y, ast.Name) and y.id == v for x in stmts[k + 2:] + b.body + b.orelse for y in ast.walk(x))
+                    if isinstance(core, ast.Name) and core.id == v and not later:
+                        cond = a.test if a.body[0].value.value is True else ast.UnaryOp(op=ast.Not(), operand=a.test)
+                        if neg:
+                            cond = ast.UnaryOp(op=ast.Not(), operand=cond)
+                        b.test = ast.copy_location(cond, a)
+                        ast.fix_missing_locations(b)
+                        folded.append(b)
+                        n += 1
+                        k += 2
+                        continue
+                folded.append(a)
+                k += 1
+            stmts = folded
             for st in stmts:
                 # annotations are not behaviour (outside class bodies, where they declare dataclass / model / NamedTuple fields)
                 if isinstance(st, ast.AnnAssign) and not in_class[0] and isinstance(st.target, (ast.Name, ast.Attribute, ast.Subscript)):
@@ -3199,7 +3227,10 @@ class ProgramNormalizer:
                     if not uses or any(getattr(u, "lineno", 0) < st.lineno for u in uses):
                         continue
                     # only when every use is a call `a(…)`: then `a` is a bound method (or another callable attribute) looked up once instead of per call
-                    if not all(isinstance(_parent_in(fn, u), ast.Call) and _parent_in(fn, u).func is u for u in uses):
+                    called = all(isinstance(_parent_in(fn, u), ast.Call) and _parent_in(fn, u).func is u for u in uses)
+                    # … or `a` is a namespace taken from self (`cols = self.EventTable.c`) and only ever dereferenced (`cols.pubkey`)
+                    namespace = base == "self" and all(isinstance(_parent_in(fn, u), ast.Attribute) and _parent_in(fn, u).value is u for u in uses)
+                    if not (called or namespace):
                         continue
                     for u in uses:
                         _replace_node(fn, u, ast.copy_location(copy.deepcopy(st.value), u))
